@@ -12,6 +12,8 @@ def key_of(ln):
     if ln["ev"] == "unshard":
         return "unshard:%s:%s" % (ln["inst"], "panic" if ln["panics"] else ("err" if ln["err"] else "wrong-aggregate"))
     what = "panic" if ln["panics"] else ("accepted" if ln["accepted"] else "rejected@" + ln["stage"])
+    if not ln["panics"] and not ln.get("owned", True):
+        what = "state-aliases-input-share"
     return "report:%s:%s:%s:%s:%s" % (ln["inst"], ln["kind"], ln["site"], "" if ln["panics"] else ln.get("note", ""), what)
 
 
